@@ -297,6 +297,14 @@ func (db *DB) exist(o Object) (ok bool, err error) {
 		return
 	}
 
+	// an object whose asynchronous write is still pending exists
+	// even though its file has not been written yet
+	if s.asyncWritesEnabled() {
+		if _, ok = db.asyncw.get(o); ok {
+			return true, nil
+		}
+	}
+
 	path = db.oPath(s, o)
 	stat, err := os.Stat(path)
 	if os.IsNotExist(err) {
